@@ -17,4 +17,40 @@ CHECKS = {
         "assumptions": ["reference SM3 validated against GB/T 32905 examples and 409 OpenSSL digests at start of every run"],
         "units": [gt("sm3", "./sm3/", "TestVerifC04")],
     },
+    "C01": {
+        "level": "exploration",
+        "rule": "round-trip monitor: each case = (entry point, key encoding, digest | id,msg, nonce stream, reader chunking); digests are SOLVED so that r, s and t=(r+s) mod n take every leading-zero-byte count 1..31 and tiny values, plus random cases through Sign/SignZa/SignHashed; a class is (entry, key length, leading-zero bytes of r, s, t); trivial: short key encodings the signer refuses",
+        "assumptions": ["reference SM2 (math/big affine) validated against GM/T 0003.5 vectors and 300 OpenSSL signatures at start of every run"],
+        "units": [gt("sm2", "./sm2/", "TestVerifC01")],
+    },
+    "C02": {
+        "level": "exploration",
+        "rule": "differential monitor vs the GM/T 0003.2 signer model with an event-recording randomness source: random (d,e,stream) plus a rule matrix of streams constructed so that the first candidates hit k-range (0, n, n+1, 2^256-1), r=0, r+k=n, s=0 in sequence; invalid keys must be refused; a class is (rejection sequence, chunking, leading-zero bytes of r and s)",
+        "assumptions": ["reference SM2 validated against GM/T 0003.5 vectors and 300 OpenSSL signatures at start of every run"],
+        "units": [gt("sm2", "./sm2/", "TestVerifC02")],
+    },
+    "C03": {
+        "level": "exploration",
+        "rule": "differential monitor vs the GM/T 0003.2 verifier model on hostile byte strings: valid tuples built without a private key (e solved from chosen s,t), solved near-misses breaking exactly one side condition (r=0, s=0, r+n, s+n, r+s=n, infinity, key x+p), all 1,280 single-bit flips of N tuples, every wrong argument length 0..40, off-curve keys, garbage; wrappers Verify/VerifyZa on derived inputs; a class is (construction label, model verdict)",
+        "assumptions": ["reference SM2 validated against GM/T 0003.5 vectors and 300 OpenSSL signatures at start of every run"],
+        "units": [gt("sm2", "./sm2/", "TestVerifC03")],
+    },
+    "C12": {
+        "level": "exploration",
+        "rule": "differential monitor vs the key model: GenerateKey on streams with every ordered sequence of <=2 (sampled 3) out-of-range candidates {0,n-1,n,n+1,2^256-1} and recorded reads; TestPrivateKey on boundary values +-3, one-byte neighbours of n-1 and random strings; DerivePublic and CheckOnCurve on valid, boundary, non-canonical (x+p) and malformed inputs; a class is (operation, plan or boundary name)",
+        "assumptions": ["reference SM2 validated against GM/T 0003.5 vectors and 300 OpenSSL signatures at start of every run"],
+        "units": [gt("sm2", "./sm2/", "TestVerifC12")],
+    },
+    "C13": {
+        "level": "exploration",
+        "rule": "ZA vs SM3(ENTL||id||a||b||G||P) for EVERY id length 0..8193 plus 10 larger ones; Sign/SignZa/SignHashed and Verify/VerifyZa/VerifyHashed equivalence under one recorded stream for every message length 0..L; 300 OpenSSL-produced signatures must verify; a class is (id length mod 64 | exact near 8192, (ZA||M) length mod 64)",
+        "assumptions": ["reference SM2/SM3 validated against standard vectors and OpenSSL fixtures at start of every run"],
+        "units": [gt("sm2", "./sm2/", "TestVerifC13")],
+    },
+    "C19": {
+        "level": "fault_enumeration",
+        "rule": "scripted faulty io.Reader: every byte position of the first failure (0..32*(rejected+1)+1) x streams starting with 0..3 rejected candidates x {io.EOF, io.ErrUnexpectedEOF, custom error} x {error with / after the last data} x chunking {full,1,7,31} x (0,nil) reads, for GenerateKey, SignHashed, SignZa, Sign; oracle = model run on the bytes available before the failure; a class is (entry, rejected count, failing candidate+offset, error kind, chunking)",
+        "assumptions": ["quick tier skips half of the interior (position x kind x chunk) cross-product; thorough enumerates it completely"],
+        "units": [gt("sm2", "./sm2/", "TestVerifC19")],
+    },
 }
